@@ -441,6 +441,12 @@ func startRT(f []string) func() string {
 	if rtCount++; rtCount%64 == 0 {
 		runtime.GC() // RoundTrip never closes its connection; let the finalizers do it
 	}
+	for len(rtReplyCh) > 0 { // left over from a case that ended in a panic
+		<-rtReplyCh
+	}
+	for len(rtCh) > 0 {
+		<-rtCh
+	}
 	rtReplyCh <- reply
 	resp, rerr := tr.RoundTrip(req)
 	got := <-rtCh
